@@ -43,8 +43,8 @@ CLAIMED = {
         design_ref="DESIGN.md 7 (C03)", note="no external assumptions beyond S1/S2",
         technique="contract-based deductive verification: AST->VC symbolic execution of the real functions, z3/cvc5"),
     'C04': dict(cat=P,
-        text="Integer half proved unbounded end to end: _twos_complement, IntegerDataEncoding._get_raw_value (int_decode of the field's bits for symbolic width, offset, buffer, byte order), NumericDataEncoding.parse_value (value/class selection, raw_value == the field, cursor == old + width) and the parameter-type delegation on top of it. Float half PROVED up to E2: FloatDataEncoding._get_raw_value returns float_field(self, exactly the field's bits) at any alignment with cursor == old + width; the MIL-STD-1750A closure is proved to compute the 24-bit two's-complement mantissa times 2**(8-bit two's-complement exponent - 23) in either byte order, the IEEE closure to call struct.unpack (E2, an uninterpreted function of format and bytes) with the stored format on exactly those bytes; parse_value keeps raw_value == that value. ASSUMED (constructor not verified): __init__ stores the closure and the struct format that match (encoding, byte order, size) - checked by the bounded native run over every encoding / size / byte order with signed zeros, infinities, NaNs and subnormals against an exact-rational reference decoder; the two lemma schemas that define float_field are tested against that decoder on every run.",
-        design_ref='DESIGN.md STATUS, 7 (C04)', note='E2 (struct.unpack is the IEEE-754 value), E3 (real arithmetic); closure/format selection in FloatDataEncoding.__init__ assumed + bounded',
+        text="Integer half proved unbounded end to end: _twos_complement, IntegerDataEncoding._get_raw_value (int_decode of the field's bits for symbolic width, offset, buffer, byte order), NumericDataEncoding.parse_value (value/class selection, raw_value == the field, cursor == old + width) and the parameter-type delegation on top of it. Float half PROVED up to E2: FloatDataEncoding._get_raw_value returns float_field(self, exactly the field's bits) at any alignment with cursor == old + width; the MIL-STD-1750A closure is proved to compute the 24-bit two's-complement mantissa times 2**(8-bit two's-complement exponent - 23) in either byte order, the IEEE closure to call struct.unpack (E2, an uninterpreted function of format and bytes) with the stored format on exactly those bytes; parse_value keeps raw_value == that value. The constructor is PROVED as well (lemma ghost.c04_float_ctor: the prover executes the real FloatDataEncoding.__init__ and NumericDataEncoding.__init__ on a fresh object for symbolic encoding / size / byte order / bytes): the MIL closure is stored exactly for MIL-STD-1750A at 32 bits, the IEEE closure otherwise, with struct format '<' or '>' for the declared byte order followed by 'e' / 'f' / 'd' for 16 / 32 / 64 bits, size and byte order kept, and it rejects only non-XTCE spellings and wrong sizes. What remains assumed: the call through the stored function VALUE in _get_raw_value uses a contract on the field (objects are built by that constructor and the two fields are not reassigned afterwards - a frame condition checked only by the bounded native run over every encoding / size / byte order with signed zeros, infinities, NaNs and subnormals against an exact-rational reference decoder); the two lemma schemas that define float_field are tested against that decoder on every run.",
+        design_ref='DESIGN.md STATUS, 7 (C04)', note='E2 (struct.unpack is the IEEE-754 value), E3 (real arithmetic); fields parse_func / _struct_format not reassigned after construction (frame, bounded)',
         technique='contract-based deductive verification: AST->VC symbolic execution of the real functions against sidecar contracts, z3/cvc5; bounded stand-in for the float bit-pattern decoding'),
     'C05': dict(cat=P,
         text='PROVED: parse_ccsds_packet descends only to the unique child whose restriction criteria all hold (oracle nvalid == 1; the child satisfies rc_match and is one of the inheritors), returns normally only at a concrete container with no matching child, and raises UnrecognizedPacketTypeError exactly at an abstract dead end or an ambiguity, carrying the packet decoded so far (payload obligation); the result is the argument packet. PROVED: the entry-list walk SequenceContainer.parse decodes exactly the parameters of the entry list, in entry-list order, each once, nested container references expanded in place (ghost event log == old log ++ flat(self), recursive spec flat_upto, whatever the packet holds: no early exit, no skipping), and Parameter.parse (every parameter type class except float-/string-encoded enumerations) stores the decoded value under its own name, a new name at the END of the packet, other items untouched. The criteria evaluators underneath are proved (C06). Header/user-data views and inheritor back-population by the XML reader are checked against ref_parse on random container trees (bounded), incl. zero-width trailing entries and packets cut to the consumed length.',
